@@ -41,7 +41,7 @@ COMMON_TRUSTED = [
 
 class Task(object):
     def __init__(self, cls, method, nparams=None, cfg=None, pins=None, label=None, ctor=False, options=None, contract_key=None,
-                 gen_options=None, pred=None):
+                 gen_options=None, pred=None, setup=None):
         self.cls = cls
         self.method = method
         self.nparams = nparams
@@ -52,6 +52,7 @@ class Task(object):
         self.gen_options = gen_options or {}
         self.contract_key = contract_key
         self.pred = pred
+        self.setup = setup
         self.label = label or self.default_label()
 
     def default_label(self):
@@ -76,7 +77,15 @@ def build_harness(prop, task, contracts):
     opts['contracts'] = contracts
     t = Translator(opts)
     t.pins = dict(task.pins)
-    fn = t.translate_method(task.cls, task.cfg, task.method, task.nparams, ctor=task.ctor, pred=task.pred)
+    this = None
+    cls = task.cls
+    if '::' in task.cls:
+        from ctypes_ import TD
+        this = t.make_obj(TD('obj', cls=task.cls, cfg=task.cfg), '')
+        cls = this.cls
+    if task.setup is not None:
+        this = task.setup(t, this, task)
+    fn = t.translate_method(cls, task.cfg, task.method, task.nparams, ctor=task.ctor, pred=task.pred, this=this)
     key = task.contract_key or fn.key
     contract = contracts.get(key)
     if contract is None:
@@ -142,6 +151,8 @@ def main():
             h = build_harness(prop, task, contracts)
             if args.only and not re.search(args.only, h.name):
                 continue
+            if any(h.name == x.name for x in harnesses):
+                raise GenError('two tasks produce the same harness name %s: give them distinct labels' % h.name)
             harnesses.append(h)
     except (ExtractionError, GenError) as ex:
         print('TOOL-FAILURE property=%s extraction/generation: %s' % (prop, ex))
@@ -202,7 +213,7 @@ def main():
             rc = 2
     if undec and rc == 0:
         rc = 2
-    if rc == 0 and baseline is not None and n_obl < int(0.8 * baseline):
+    if rc == 0 and baseline is not None and not args.only and n_obl < int(0.8 * baseline):
         rc = 2
         msgs.append('only %d obligations generated, baseline is %d' % (n_obl, baseline))
     out_lines = []
